@@ -419,6 +419,14 @@ def siblings(ctx):
     # the marker/flag pair is present exactly when the probe byte was 00 (the reader consumed 2 bytes then, else it seeks back)
     if len(rshape) > 1 and rshape[1][0] == 'opt' and "== 00'h" in rshape[1][1] and rshape[1][2] == [('f', 2)] and rshape[1][3] == []:
         rshape[1] = ('f', 2)
+    # the witness section is re-assembled exactly when the serialization is segwit (the reader reads it under the same test)
+    norm_shape = []
+    for x in rshape:
+        if x[0] == 'opt' and "'segwit'" in x[1] and x[3] == []:
+            norm_shape += x[2]
+        else:
+            norm_shape.append(x)
+    rshape = norm_shape
     ctx.saw('rawtx pieces : %s' % _fmt(rshape))
     want = [rs_d[0], ('f', 2)] + [s for s in rs_d[4:]]
     if _strip_keys(_flatten_unrolled(rshape)) != _strip_keys(_flatten_unrolled(want)):
